@@ -20,7 +20,7 @@ Require Import BMA.lib.Base BMA.lib.Reflect BMA.gen.GenTypes BMA.gen.GenPure BMA
                BMA.lib.Encode BMA.gen.GenApi BMA.gen.GenLens BMA.lib.Run BMA.lib.Driver BMA.proofs.Generic BMA.proofs.Rules BMA.proofs.Coherent
                BMA.proofs.Symex BMA.proofs.BuilderSpec BMA.proofs.Builders BMA.proofs.SymexLink BMA.proofs.BuilderCor
                BMA.proofs.OdrInv BMA.proofs.OdrOps BMA.proofs.WfInv BMA.proofs.WfOps BMA.spec.Datasheet BMA.spec.BuilderProps BMA.spec.WfThms.
-Require Import BMA.props.C16.
+Require Import BMA.props.C16 BMA.props.C06.
 Open Scope N_scope.
 
 (* after any history the device holds the shadow on every shadowed register: the hypothesis `coherent d c` of the
@@ -115,4 +115,33 @@ Theorem c01_every_builder_call_ready : forall cs s dev, ops_ok cs = true ->
   let w := history (init_world dev s) cs in wfb (shadow w) = true /\ coherent (shadow w) (wchip w).
 Proof.
   intros cs s dev H w. destruct (c01_state_history cs (init_world dev s) H (c01_initial_ready s dev)) as [Hc Hw]. split; [exact Hw | exact Hc].
+Qed.
+
+(* ---- everything a configuration call relies on, together: belief = device, bytes, ODR rules — after every history of well-typed
+   calls from a fresh driver, over the register-level transport and over I2C at HAL level ---- *)
+Definition AllReady (w : world) : Prop := Coh w /\ wfb (shadow w) = true /\ ov (shadow w) = true.
+
+Theorem c01_all_ready_history : forall cs s dev, ops_ok cs = true -> AllReady (history (init_world dev s) cs).
+Proof.
+  intros cs s dev H.
+  destruct (c01_state_history cs (init_world dev s) H (c01_initial_ready s dev)) as [Hc Hw].
+  assert (Ha : forallb (fun c => api_only (fst c)) cs = true).
+  { unfold ops_ok in H. rewrite forallb_forall in *. intros c Hc'. specialize (H c Hc'). apply andb_prop in H. tauto. }
+  destruct (c06_every_history cs (init_world dev s) Ha (c06_initial s dev)) as [_ Ho].
+  repeat split; assumption.
+Qed.
+
+Theorem c01_all_ready_history_i2c : forall cs s dev, ops_ok cs = true ->
+  let w := history_i2c dev (init_world dev s) cs in Coh w /\ wfb (shadow w) = true /\ ov (shadow w) = true.
+Proof.
+  intros cs s dev H.
+  assert (G : forall cs w, ops_ok cs = true -> (CohI dev w /\ wfb (shadow w) = true /\ ov (shadow w) = true) ->
+              CohI dev (history_i2c dev w cs) /\ wfb (shadow (history_i2c dev w cs)) = true /\ ov (shadow (history_i2c dev w cs)) = true).
+  { induction cs0 as [|c cs0 IH]; intros w Hc Hw; [exact Hw|].
+    unfold ops_ok in Hc. cbn [forallb] in Hc. apply andb_prop in Hc. destruct Hc as [H1 H2]. apply andb_prop in H1. destruct H1 as [Ha Hwf].
+    cbn [history_i2c fold_left]. apply IH; [exact H2|]. destruct c as [op fl]. cbn [fst] in *. destruct Hw as [Hi [Hb Ho]].
+    split; [apply c16_i2c_every_call; assumption|]. unfold call_i2c. cbn [fst snd].
+    split; [apply c01_wf_every_exit; assumption | apply c06_every_exit; assumption]. }
+  destruct (G cs (init_world dev s) H (conj (c16_i2c_initial s dev) (conj (proj2 (c01_initial_ready s dev)) (proj2 (c06_initial s dev))))) as [[Hc _] [Hw Ho]].
+  cbv zeta. repeat split; assumption.
 Qed.
